@@ -41,7 +41,7 @@ var specHelperNames = map[string]bool{
 	"old": true, "athead": true, "held": true, "implies": true, "iff": true, "forall": true, "exists": true, "forall2": true,
 	"Z": true, "result": true, "panics": true, "fresh": true, "strdigits": true, "parsedec": true,
 	"substr": true, "imin": true, "imax": true, "lower": true, "isnil": true, "typeis": true,
-	"sliceeq": true, "sameslice": true, "psum": true, "let": true, "ite": true, "alloc": true,
+	"sliceeq": true, "sameslice": true, "samemap": true, "psum": true, "let": true, "ite": true, "alloc": true,
 	"str": true, "bytesOf": true, "unchanged": true, "trunc": true,
 }
 
@@ -64,6 +64,7 @@ func imax[T ~int | ~int64 | ~uint64 | ~uint32 | ~int32](a, b T) T { if a > b { r
 func ite[T any](c bool, a, b T) T       { if c { return a }; return b }
 func fresh[T any](p T) bool             { return true }
 func sameslice[T any](a, b []T) bool    { return len(a) == len(b) }
+func samemap[K comparable, V any](a, b map[K]V) bool { return len(a) == len(b) }
 func sliceeq[T comparable](a, b []T) bool { return len(a) == len(b) }
 func str(b []byte) string               { return string(b) }
 func typeis[T any](v any) bool          { _, ok := v.(T); return ok }
